@@ -154,6 +154,65 @@ Section Generic.
                 (snd (fst (run_from M c (mod_init it0) (m_init M c) (h1 ++ [i])))) h2) as [[m2 s2] o2].
     cbn [fst snd]. auto.
   Qed.
+  (* ---- when writing the state changes the object only up to Eqv, the run that went on is, observationally,
+     the uninterrupted run ---- *)
+  Lemma run_from_started c h : forall m s, (h <> [] \/ md_started m = true) ->
+    md_started (fst (fst (run_from M c m s h))) = true.
+  Proof.
+    induction h as [|i r IH]; intros m s H.
+    - cbn [run_from fst]. destruct H as [H|H]; [congruence | exact H].
+    - cbn [run_from fst snd]. apply IH. right. apply mod_tick_started.
+  Qed.
+
+  Lemma outs_eq_trans : (forall a b c, OutEq a b -> OutEq b c -> OutEq a c) ->
+    forall l1 l2 l3, outs_eq l1 l2 -> outs_eq l2 l3 -> outs_eq l1 l3.
+  Proof.
+    intros Ht l1 l2 l3 H12. revert l3. induction H12 as [|a b r1 r2 [Ha1 Ha2] H12 IH]; intros l3 H23.
+    - inversion H23. constructor.
+    - inversion H23 as [|b' c r2' r3 [Hb1 Hb2] H23' E1 E2]. subst. constructor.
+      + split; [congruence | eapply Ht; eauto].
+      + apply IH; auto.
+  Qed.
+
+  Theorem resume_vs_uninterrupted_neutral (HR : resumable)
+    (Hneutral : forall c s, Ok c -> Inv c s -> Eqv c s (m_after_save M c s))
+    (HtO : forall a b c, OutEq a b -> OutEq b c -> OutEq a c)
+    (HtS : forall a b c, SavedEq a b -> SavedEq b c -> SavedEq a c)
+    c (Hc : Ok c) it0 h1 i h2 :
+    let U := run M c it0 (h1 ++ i :: h2) in
+    let P := run M c it0 (h1 ++ [i]) in
+    let B := resume M c (state_file M c (fst P)) (i :: h2) in
+    exists oP o0 oU oB,
+      snd U = oP ++ o0 :: oU /\
+      snd B = (fst o0, snd (hd o0 (snd B))) :: oB /\
+      OutEq0 (snd o0) (snd (hd o0 (snd B))) /\
+      outs_eq oU oB /\
+      md_it (fst (fst U)) = md_it (fst (fst B)) /\
+      SavedEq (m_save M c (snd (fst U))) (m_save M c (snd (fst B))).
+  Proof.
+    intros U P B.
+    destruct (resume_vs_go_on HR c Hc it0 h1 i h2) as (oP & o0 & oB & H1 & H2 & H3 & H4 & H5 & H6).
+    cbn zeta in H1, H2, H3, H4, H5, H6. fold P in H1, H2, H3, H4, H5, H6. fold B in H2, H3, H5, H6.
+    set (m1 := fst (fst P)) in *. set (s1 := snd (fst P)) in *.
+    assert (HP : Inv c s1 /\ 0 <= mod_rel m1).
+    { subst m1 s1 P. unfold run. apply run_from_inv; auto. apply (r_inv_init HR); auto. unfold mod_rel, mod_init; cbn; lia. }
+    assert (Hst : md_started m1 = true).
+    { subst m1 P. unfold run. apply run_from_started. left. destruct h1; discriminate. }
+    assert (Hok : mod_ok m1) by (split; [exact Hst | exact (proj2 HP)]).
+    destruct (bisim_tail HR c Hc h2 m1 m1 s1 (m_after_save M c s1) (Hneutral c s1 Hc (proj1 HP)) Hok Hok eq_refl)
+      as (T1 & T2 & T3). cbn zeta in T1, T2, T3.
+    assert (HU : U = (fst (fst (run_from M c m1 s1 h2)), snd (fst (run_from M c m1 s1 h2)),
+                      snd P ++ snd (run_from M c m1 s1 h2))).
+    { subst U. replace (h1 ++ i :: h2) with ((h1 ++ [i]) ++ h2) by (rewrite <- app_assoc; reflexivity).
+      unfold run. rewrite run_from_app. cbn zeta. reflexivity. }
+    exists oP, o0, (snd (run_from M c m1 s1 h2)), oB.
+    rewrite HU. cbn [fst snd]. rewrite H1, <- app_assoc. cbn [app].
+    unfold go_on in H4, H5, H6. fold m1 s1 in H4, H5, H6.
+    repeat split; auto.
+    - eapply outs_eq_trans; eauto.
+    - congruence.
+    - eapply HtS; [apply (rs_save HR c _ _ Hc T2) | exact H6].
+  Qed.
 End Generic.
 
 (* ---- the statements, as predicates of an object ---- *)
